@@ -279,29 +279,29 @@ Section Curve.
   Qed.
 
   (* moving control point j leaves every evaluation whose window [istar, istar+K] does not contain j untouched *)
-  Theorem local_support fixed M K ctrl ctrl' j t0 dt t d :
+  Theorem local_support M K ctrl ctrl' j t0 dt t d :
     length ctrl = length ctrl' -> (forall k, k <> j -> nth k ctrl d = nth k ctrl' d) ->
-    let i := Z.to_nat (fst (bs_select fixed (Z.of_nat K) (Z.of_nat (length ctrl)) t0 dt t)) in
+    let i := Z.to_nat (fst (bs_select (Z.of_nat K) (Z.of_nat (length ctrl)) t0 dt t)) in
     (j < i \/ i + K < j)%nat ->
-    bs_eval fixed M K ctrl t0 dt t = bs_eval fixed M K ctrl' t0 dt t.
+    bs_eval M K ctrl t0 dt t = bs_eval M K ctrl' t0 dt t.
   Proof.
     intros Hlen Hnth i Hj. unfold C13_Eval.bs_eval. rewrite <- Hlen. subst i.
-    destruct (bs_select fixed (Z.of_nat K) (Z.of_nat (length ctrl)) t0 dt t) as [i u]. cbn [fst] in Hj.
+    destruct (bs_select (Z.of_nat K) (Z.of_nat (length ctrl)) t0 dt t) as [i u]. cbn [fst] in Hj.
     unfold C13_Eval.window_eval. rewrite (window_ext K ctrl ctrl' (Z.to_nat i) d Hlen); [reflexivity|].
     intros k Hk. apply Hnth. lia.
   Qed.
 
   (* ... in terms of knot intervals: control point j only influences the knot intervals j-K .. j *)
-  Corollary local_support_interval fixed M K ctrl ctrl' j m t0 dt t d :
+  Corollary local_support_interval M K ctrl ctrl' j m t0 dt t d :
     length ctrl = length ctrl' -> (forall k, k <> j -> nth k ctrl d = nth k ctrl' d) ->
     0 < dt -> (Z.of_nat (length ctrl) <= two63)%Z -> (m + K + 1 <= length ctrl)%nat ->
     t0 + inject_Z (Z.of_nat m) * dt <= t -> t < t0 + inject_Z (Z.of_nat m + 1) * dt ->
     (j < m \/ m + K < j)%nat ->
-    bs_eval fixed M K ctrl t0 dt t = bs_eval fixed M K ctrl' t0 dt t.
+    bs_eval M K ctrl t0 dt t = bs_eval M K ctrl' t0 dt t.
   Proof.
     intros Hlen Hnth Hdt HN Hm Hlo Hhi Hj.
-    apply (local_support fixed M K ctrl ctrl' j t0 dt t d Hlen Hnth).
-    destruct (window_spec fixed (Z.of_nat K) (Z.of_nat (length ctrl)) t0 dt t (Z.of_nat m)) as [-> _];
+    apply (local_support M K ctrl ctrl' j t0 dt t d Hlen Hnth).
+    destruct (window_spec (Z.of_nat K) (Z.of_nat (length ctrl)) t0 dt t (Z.of_nat m)) as [-> _];
       try assumption; try lia.
     cbn [fst]. rewrite Nat2Z.id. exact Hj.
   Qed.
@@ -330,12 +330,12 @@ Section Curve.
   Qed.
 
   (* equal control points give a constant curve with zero velocity and acceleration, for ALL t *)
-  Theorem constants fixed M K g n t0 dt t :
-    (K + 1 <= n)%nat -> bs_eval fixed M K (repeat g n) t0 dt t = (g, tzero, tzero).
+  Theorem constants M K g n t0 dt t :
+    (K + 1 <= n)%nat -> bs_eval M K (repeat g n) t0 dt t = (g, tzero, tzero).
   Proof.
     intro Hn. unfold C13_Eval.bs_eval. rewrite repeat_length.
-    pose proof (select_in_range fixed (Z.of_nat K) (Z.of_nat n) t0 dt t ltac:(lia) ltac:(lia)) as Hr.
-    destruct (bs_select fixed (Z.of_nat K) (Z.of_nat n) t0 dt t) as [i u]. destruct Hr as [Hi _].
+    pose proof (select_in_range (Z.of_nat K) (Z.of_nat n) t0 dt t ltac:(lia) ltac:(lia)) as Hr.
+    destruct (bs_select (Z.of_nat K) (Z.of_nat n) t0 dt t) as [i u]. destruct Hr as [Hi _].
     unfold C13_Eval.window_eval, C13_Eval.window.
     rewrite skipn_repeat', firstn_repeat' by lia.
     unfold C13_Eval.eval_gs. cbn [repeat]. change (g :: repeat g K) with (repeat g (S K)).
@@ -359,14 +359,14 @@ Section Curve.
 
   (* multiplying every control point by h on the left multiplies the curve by h and leaves the body velocity and
      acceleration unchanged, for ALL t *)
-  Theorem left_equivariance fixed M K ctrl h t0 dt t :
+  Theorem left_equivariance M K ctrl h t0 dt t :
     (K + 1 <= length ctrl)%nat ->
-    bs_eval fixed M K (map (op h) ctrl) t0 dt t =
-    let '(g, w, a) := bs_eval fixed M K ctrl t0 dt t in (op h g, w, a).
+    bs_eval M K (map (op h) ctrl) t0 dt t =
+    let '(g, w, a) := bs_eval M K ctrl t0 dt t in (op h g, w, a).
   Proof.
     intro Hn. unfold C13_Eval.bs_eval. rewrite map_length.
-    pose proof (select_in_range fixed (Z.of_nat K) (Z.of_nat (length ctrl)) t0 dt t ltac:(lia) ltac:(lia)) as Hr.
-    destruct (bs_select fixed (Z.of_nat K) (Z.of_nat (length ctrl)) t0 dt t) as [i u]. destruct Hr as [Hi _].
+    pose proof (select_in_range (Z.of_nat K) (Z.of_nat (length ctrl)) t0 dt t ltac:(lia) ltac:(lia)) as Hr.
+    destruct (bs_select (Z.of_nat K) (Z.of_nat (length ctrl)) t0 dt t) as [i u]. destruct Hr as [Hi _].
     unfold C13_Eval.window_eval, C13_Eval.window. rewrite skipn_map, firstn_map.
     remember (firstn (S K) (skipn (Z.to_nat i) ctrl)) as w eqn:Ew.
     assert (Hw : length w = S K).
@@ -382,14 +382,14 @@ Section Curve.
     let '(g, w, a) := s in (g, smul (/ dt) w, smul (/ (dt * dt)) a).
 
   (* inside knot interval i the code evaluates window i at the local parameter *)
-  Theorem bs_eval_window fixed M K ctrl t0 dt t i :
+  Theorem bs_eval_window M K ctrl t0 dt t i :
     0 < dt -> (Z.of_nat (length ctrl) <= two63)%Z -> (i + K + 1 <= length ctrl)%nat ->
     t0 + inject_Z (Z.of_nat i) * dt <= t -> t < t0 + inject_Z (Z.of_nat i + 1) * dt ->
-    bs_eval fixed M K ctrl t0 dt t
+    bs_eval M K ctrl t0 dt t
     = scale dt (window_eval M K ctrl i (Qred ((t - t0 - inject_Z (Z.of_nat i) * dt) / dt))).
   Proof.
     intros Hdt HN Hi Hlo Hhi. unfold C13_Eval.bs_eval.
-    destruct (window_spec fixed (Z.of_nat K) (Z.of_nat (length ctrl)) t0 dt t (Z.of_nat i)) as [-> _];
+    destruct (window_spec (Z.of_nat K) (Z.of_nat (length ctrl)) t0 dt t (Z.of_nat i)) as [-> _];
       try assumption; try lia.
     rewrite Nat2Z.id. unfold scale. reflexivity.
   Qed.
@@ -403,14 +403,14 @@ Section Curve.
   (* evaluation AT the knot t0 + (i+1) dt (which uses window i+1 at u = 0) returns, up to order r, what window i
      gives at u = 1, i.e. the limit from the left (bs_eval_window: on [t0 + i dt, t0 + (i+1) dt) the code evaluates
      window i at u = (t - t0 - i dt)/dt, a polynomial/exp expression in u) *)
-  Theorem knot_continuity_eval fixed r M K ctrl t0 dt t i :
+  Theorem knot_continuity_eval r M K ctrl t0 dt t i :
     (1 <= K)%nat -> knot_shape r M K ->
     0 < dt -> (Z.of_nat (length ctrl) <= two63)%Z -> (i + K + 2 <= length ctrl)%nat ->
     t == t0 + inject_Z (Z.of_nat (S i)) * dt ->
-    outputs_upto r (bs_eval fixed M K ctrl t0 dt t) = outputs_upto r (scale dt (window_eval M K ctrl i 1)).
+    outputs_upto r (bs_eval M K ctrl t0 dt t) = outputs_upto r (scale dt (window_eval M K ctrl i 1)).
   Proof.
     intros HK Hshape Hdt HN Hi Ht. unfold C13_Eval.bs_eval.
-    rewrite (knot_select fixed (Z.of_nat K) (Z.of_nat (length ctrl)) t0 dt t (Z.of_nat (S i))); try assumption; try lia.
+    rewrite (knot_select (Z.of_nat K) (Z.of_nat (length ctrl)) t0 dt t (Z.of_nat (S i))); try assumption; try lia.
     rewrite Nat2Z.id. symmetry.
     apply (outputs_scale r dt (window_eval M K ctrl i 1) (window_eval M K ctrl (S i) 0)).
     now apply knot_continuity.
